@@ -64,6 +64,17 @@ def effect_rule(chk, prog, closure, rule_r1, rule_r2, label, written=None):
             ok = bool(held)
             if not ok:
                 nfail += 1
+            if ok and label == 'handler' and not vid.startswith('celma::common::Singleton<'):
+                # a lock removes the data race, not the coupling: a process-wide object that handler paths WRITE
+                # (a registry of files in progress, a cache, a counter) makes the result of one handler depend on
+                # what other threads' handlers are doing - 'each thread observes what it would observe alone'
+                # allows no such object at all (the singleton accessor is covered by R5: members of a group only)
+                nfail += 1
+                chk.check(False, rule_r1, f.name, 'no process-wide mutable object on handler paths (%s)' % vid,
+                          f.loc(node), 'the %s of %s is lock-protected, but the object is shared by all handlers of the '
+                          'process and written at %s; reached via %s' % (kind, vid, ', '.join(sorted(
+                              {w.name for w, _ in written[vid]}))[:160], path))
+                continue
             chk.check(ok, rule_r1, f.name, what, f.loc(node),
                       'mutable object with static storage accessed (%s) without a lock on a static '
                       'mutex; written at %s; reached via %s' % (
